@@ -4,6 +4,7 @@ import itertools
 from .. import obs
 
 LEVEL = "exploration"
+SUITE_MONITOR = True      # also judge the repository's own tests/doctests through rv/monitors.py
 RULE = ("Operands are built from run specifications (unique letters per position, distinct "
         "formatting per run, empty runs and no-run values included). The real operation is "
         "executed and its per-character cell list is compared with the same Python list "
